@@ -242,6 +242,9 @@ pub fn run(report: &Report, thorough: bool) -> Evidence {
             o.psugg = psugg;
             // the smart-quote-off walks build their Config with the setters in reverse order
             o.reversed_setters = !smart;
+            // ... and the ANSI context of the suggestions-off walks is a re-configured one (created with every option
+            // inverted, then update_engine)
+            o.via_update = ansi && !psugg;
             crate::drv::clear_user_files(&o);
             Ctx::new(&o).expect("ctx")
         };
@@ -363,6 +366,8 @@ pub fn run(report: &Report, thorough: bool) -> Evidence {
             o.english = english;
             o.kar = kar;
             o.reversed_setters = kar;
+            // the ANSI context of the plain-joining walks is a re-configured one
+            o.via_update = ansi && !kar;
             Ctx::new(&o).expect("ctx")
         };
         let typed = AtomicU64::new(0);
